@@ -14,6 +14,7 @@ namespace Scrapli.Queue.Skeleton
 def expected : List (String × List String) := [
   ("Dequeue", ["if q.getDepth() == 0 {", "return nil", "}",          -- gRecv, gSend, gTest
                "q.lock.Lock()", "defer q.lock.Unlock()",             -- lock … unlock
+               "if len(q.queue) == 0 {", "return nil", "}",          -- dqChk
                "b := q.queue[0]",                                    -- dqIdx
                "q.queue = q.queue[1:]",                              -- dqSlice
                "q.depth--",                                          -- dqDec
